@@ -942,6 +942,21 @@ def _bytecode_env(env):
     return env
 
 
+def _entry_type(d):
+    """Name.type of a sub-module entry in a completion list INFERS the sub-module (parses and pickles its file):
+    an observation that loads files the asked query did not need and the model does not know of (found in the
+    thorough tier: a later older-mtime rewrite of such a file was served stale without being predicted).
+    Such entries are reported as 'module' from the name object alone; what the sub-module IS is probed - and
+    classified - by its own import query."""
+    try:
+        from jedi.inference.names import SubModuleName
+        if isinstance(d._name, SubModuleName):
+            return 'module'
+    except Exception:
+        pass
+    return d.type
+
+
 def _session_main(rfd, wfd, root, cache):
     import jedi
     jedi.settings.cache_directory = cache
@@ -966,7 +981,7 @@ def _session_main(rfd, wfd, root, cache):
                         if mp is not None:
                             mp = str(mp)
                             rel = os.path.relpath(mp, root) if mp.startswith(root + os.sep) else '<outside>'
-                        rows.append((d.name, d.type, d.line, rel))
+                        rows.append((d.name, _entry_type(d), d.line, rel))
                     out.append(rows)
                 except Exception as e:
                     out.append(dict(exc=common.exc_sig(e)))
